@@ -52,6 +52,16 @@ class Contract:
         self.bv = d.get('bv')
         self.extra = d
 
+    def all_props(self):
+        """every property named by the contract or by one of its clauses (ensures, raises, checkpoints)"""
+        props = set(self.props)
+        names = list(self.ensures) + list(self.raises)
+        for cp in (self.extra.get('checkpoints') or {}).values():
+            names.extend(cp)
+        for n in names:
+            props.update(self.clause_props(n))
+        return props
+
     def clause_props(self, name):
         m = re.search(r'\[([A-Z0-9, ]+)\]', name)
         if m:
